@@ -4,6 +4,10 @@
 // which vstd ships no specification. Byte-level view: `s.spec_bytes()`.
 // ---------------------------------------------------------------------------
 pub mod vp_str {
+    /// stands for the panic of `assert!` / `unreachable!()`: calling it is a proof obligation that the call is unreachable
+    #[verifier::external_body]
+    pub fn vp_panic() requires false { unimplemented!() }
+
     use super::*;
     use vstd::prelude::*;
     use vstd::string::*;
@@ -133,6 +137,9 @@ pub mod vp_str {
     #[verifier::external_type_specification]
     #[verifier::external_body]
     pub struct ExIpv6Addr(core::net::Ipv6Addr);
+    #[verifier::external_type_specification]
+    #[verifier::external_body]
+    pub struct ExIpv4Addr(core::net::Ipv4Addr);
 
     #[verifier::external_trait_specification]
     pub trait ExFromStr: Sized {
@@ -148,6 +155,11 @@ pub mod vp_str {
 
     pub broadcast axiom fn ax_parse_u16(s: &str)
         ensures (#[trigger] str_parse_spec::<u16>(s)).is_ok() == u16_parse_ok(s.spec_bytes());
+
+    /// std-documented: the value of a successfully parsed plain digit string is its decimal value
+    pub broadcast axiom fn ax_parse_u16_value(s: &str)
+        ensures (#[trigger] str_parse_spec::<u16>(s)).is_ok() && all_digits(s.spec_bytes())
+            ==> str_parse_spec::<u16>(s)->Ok_0 as nat == dec_value(s.spec_bytes());
 
     pub broadcast axiom fn ax_parse_ipv6(s: &str)
         ensures (#[trigger] str_parse_spec::<core::net::Ipv6Addr>(s)).is_ok() == ipv6_parse_ok(s.spec_bytes());
@@ -174,6 +186,6 @@ pub mod vp_str {
 
     pub broadcast group group_vp_str {
         ax_str_len_bound, ax_str_ext, ax_str_ext_view, ax_ascii_boundary, ax_find_char, ax_contains_char, ax_contains_char2,
-        ax_starts_with_char, ax_strip_prefix_str, ax_parse_u16, ax_parse_ipv6, ax_slice_contains_u8,
+        ax_starts_with_char, ax_strip_prefix_str, ax_parse_u16, ax_parse_u16_value, ax_parse_ipv6, ax_slice_contains_u8,
     }
 }
